@@ -237,7 +237,7 @@ func TestC08States(t *testing.T) {
 	}
 	kit.SetChecks(300, 2000)
 	rapid.Check(t, func(rt *rapid.T) {
-		spec := memsys.GenAssembly(rt, memsys.GenOpts{MaxOps: 40, WTMinLatency: 1, Bottoms: []string{"ideal", "banked", "dram"}})
+		spec := memsys.GenAssembly(rt, memsys.GenOpts{MaxOps: 40, Bottoms: []string{"ideal", "banked", "dram"}})
 		run(rt, c08Case{Spec: spec, CutSel: rapid.IntRange(0, 1000).Draw(rt, "cutSel")})
 	})
 }
